@@ -1,7 +1,11 @@
 // Package c16 decides property C16: a per-field merge policy applies to
 // exactly the named subtree.
 //
-// One sub-check, "field-scope". The case is data: two trees, a global policy
+// Two sub-checks: "field-scope" (this file, one merge call) and
+// "option-reuse" (reuse_test.go: histories of calls that share Option values,
+// entry points NewFrom/Merge/Unpack, source representations).
+//
+// field-scope: the case is data: two trees, a global policy
 // and 1-3 field options (dotted path + policy). run merges B into A with the
 // library under PathSep("."), the global option and the Field*Values options
 // (in that order) and asserts
@@ -52,7 +56,8 @@ type Case struct {
 	B      *gen.Tree    `json:"b"`
 	Global model.Policy `json:"global"`
 	Fields []FieldOpt   `json:"fields"`
-	Src    int          `json:"src,omitempty"` // 0: B is generic Go data, 1: B is a *Config
+	Src    int          `json:"src,omitempty"`  // 0: B is generic Go data, 1: B is a *Config, 2: B in a mixed Go representation
+	Repr   int          `json:"repr,omitempty"` // seed of the representation choices of Src 2
 }
 
 const sep = "."
@@ -372,7 +377,9 @@ func libMerge(a, b interface{}, asConfig bool, opts []ucfg.Option) (interface{},
 	}
 	src := b
 	if asConfig {
-		if src, err = ucfg.NewFrom(b, ucfg.PathSep(sep)); err != nil {
+		if cfg, isCfg := b.(*ucfg.Config); isCfg {
+			src = cfg
+		} else if src, err = ucfg.NewFrom(b, ucfg.PathSep(sep)); err != nil {
 			return nil, fmt.Errorf("NewFrom(B): %v", err)
 		}
 	}
@@ -422,6 +429,15 @@ func runCase(c Case, r *runlog.R) error {
 		return nil
 	}
 	goA, goB := c.A.Go(), c.B.Go()
+	used := map[string]int{}
+	if c.Src == 2 {
+		// B as structs with config tags, typed maps and slices, pointers, arrays, embedded configs
+		v, err := withReprs(c.B, c.Repr).GoRepr([]ucfg.Option{ucfg.PathSep(sep)}, used)
+		if err != nil {
+			return fmt.Errorf("building the mixed representation of B: %v\n %s", err, c.describe())
+		}
+		goB = v
+	}
 	got, err := libMerge(goA, goB, c.Src == 1, libOpts(c.Global, c.Fields))
 	if err != nil {
 		return fmt.Errorf("%v\n %s", err, c.describe())
@@ -598,7 +614,19 @@ func runCase(c Case, r *runlog.R) error {
 	r.ClassIf(len(roots) > 0, "wildcard+exact overlap (unasserted)")
 	r.ClassIf(checked > 0, "subtree relation (R2) checked")
 	r.ClassIf(c.A.K == "list", "top-level list")
+	seen := map[string]model.Policy{}
+	for _, f := range c.Fields {
+		if p, dup := seen[f.Path]; dup {
+			r.Class("same path named twice")
+			r.ClassIf(p != f.Policy, "same path named twice with different policies")
+		}
+		seen[f.Path] = f.Policy
+	}
 	r.ClassIf(c.Src == 1, "source is *Config")
+	r.ClassIf(c.Src == 2, "source in a mixed Go representation")
+	for k := range used {
+		r.Class("repr:" + k)
+	}
 	return nil
 }
 
@@ -982,8 +1010,11 @@ func genCase(t *rapid.T) Case {
 		plant(t, cfg, b, name, 1)
 	}
 	c := Case{A: a, B: b, Global: model.Policy(rapid.IntRange(0, int(model.NPolicies)-1).Draw(t, "global"))}
-	if rapid.IntRange(0, 3).Draw(t, "src") == 0 {
+	switch rapid.IntRange(0, 5).Draw(t, "src") {
+	case 0:
 		c.Src = 1
+	case 1, 2:
+		c.Src, c.Repr = 2, rapid.IntRange(0, 1<<16).Draw(t, "repr")
 	}
 	pl := buildPool(a, b)
 	nf := rapid.SampledFrom([]int{1, 1, 1, 2, 2, 3}).Draw(t, "nfields")
@@ -999,11 +1030,11 @@ func genCase(t *rapid.T) Case {
 
 var subScope = runlog.Register(&runlog.Sub[Case]{
 	Name: "field-scope",
-	Rule: "constructive: tree A over keys {a,b,c,d} (now and then 0/1, giving nodes with a list part next to named keys; 1 in 8 a non-empty top-level list) with one key name planted as a container in 1-2 further objects, so that the name occurs at several depths; B a mutation of A (children dropped, replaced, changed, added; 1 in 8 an independent tree), sometimes with the name planted once more; B given as generic data or *Config; global policy one of 5; 1-3 field options, policy one of merge/replace/append/prepend, path taken from the paths of A and B (container in both trees 40%, any node incl. primitives and list indices 15%, present in one tree only 10%), look-alikes (real paths with their index segments dropped, bare last components; 15%), `**.name` 15%, absent paths 5%, half of the picks restricted to paths ending in the planted name; later options repeat (1/6) or extend/enclose (1/6) an earlier path; options are given as PathSep(\".\"), global policy, field options. Oracle: (1) field-policy model (longest named prefix wins, later option wins ties, `**.name` matches at any depth) on the shared merge model; values inside a subtree where a `**` option and an exact option with another policy compete are not asserted (statement silent on precedence); (2) after erasing every named subtree the result equals the library's merge under the global policy alone; (3) each named subtree (up to 6 instances of a `**.name`) equals the library's merge of the two subtrees with the named policy as global one, provided its ancestors were merged (no dictionary replaced, lists merged index-wise on the way), B has no primitive in the way and one policy governs the whole subtree. Non-trivial: some option names a path that is a container in both trees (for `**.name`: some node under that name), its policy differs from the global one, the same last component occurs at another depth (for `**`: at two depths or more), and the result differs from the global-only merge. Distinct: hash of the whole case.",
+	Rule: "constructive: tree A over keys {a,b,c,d} (now and then 0/1, giving nodes with a list part next to named keys; 1 in 8 a non-empty top-level list) with one key name planted as a container in 1-2 further objects, so that the name occurs at several depths; B a mutation of A (children dropped, replaced, changed, added; 1 in 8 an independent tree), sometimes with the name planted once more; B given as generic data (1/2), as *Config (1/6) or in a mixed Go representation chosen per container (1/3: StructOf structs with config tags, typed maps and slices, pointers, arrays, named types, embedded *Config); global policy one of 5; 1-3 field options, policy one of merge/replace/append/prepend, path taken from the paths of A and B (container in both trees 40%, any node incl. primitives and list indices 15%, present in one tree only 10%), look-alikes (real paths with their index segments dropped, bare last components; 15%), `**.name` 15%, absent paths 5%, half of the picks restricted to paths ending in the planted name; later options repeat (1/6) or extend/enclose (1/6) an earlier path; options are given as PathSep(\".\"), global policy, field options. Oracle: (1) field-policy model (longest named prefix wins, later option wins ties, `**.name` matches at any depth) on the shared merge model; values inside a subtree where a `**` option and an exact option with another policy compete are not asserted (statement silent on precedence); (2) after erasing every named subtree the result equals the library's merge under the global policy alone; (3) each named subtree (up to 6 instances of a `**.name`) equals the library's merge of the two subtrees with the named policy as global one, provided its ancestors were merged (no dictionary replaced, lists merged index-wise on the way), B has no primitive in the way and one policy governs the whole subtree. Non-trivial: some option names a path that is a container in both trees (for `**.name`: some node under that name), its policy differs from the global one, the same last component occurs at another depth (for `**`: at two depths or more), and the result differs from the global-only merge. Distinct: hash of the whole case.",
 	Gen:  genCase,
 	Run:  runCase,
 })
 
-func TestFieldScope(t *testing.T) { subScope.Check(t, 200000, 10000000) }
+func TestFieldScope(t *testing.T) { subScope.Check(t, 160000, 10000000) }
 
 func TestReplay(t *testing.T) { runlog.ReplayMain(t) }
